@@ -130,6 +130,42 @@ Theorem C09_kept_change_keeps_tasks : forall p order s c' id, listing_ok order s
 Proof. exact kept_change_keeps_tasks. Qed.
 Print Assumptions C09_kept_change_keeps_tasks.
 
+(* ---- Prune as a step of a history: ONE invariant theorem, no hypothesis about the state.
+   Histories ([hop], models/Prune.v) interleave NewChange, NewTask (+ AddTask when the change exists), status writes, ready-time
+   writes, AddWarning, AddNotice and Prune with any clock and parameters, in any order and number, from the empty state. *)
+(* every reachable state satisfies the invariant (distinct change ids; listed tasks exist and are linked back; no task listed
+   by two changes), and Prune preserves it *)
+Theorem C09_reachable_wf : forall ops, wf (hrun ops).
+Proof. exact reachable_wf. Qed.
+Print Assumptions C09_reachable_wf.
+
+Theorem C09_prune_preserves_wf : forall p s, wf s -> wf (result_state (prune p s)).
+Proof. exact prune_preserves_wf. Qed.
+Print Assumptions C09_prune_preserves_wf.
+
+(* after ANY history, for ANY clock and parameters, Prune (1) leaves a state that again satisfies the invariant; (2) removes a
+   change only if it was finished and old / over the limit, or empty, unready and old; (3) removes every task of a removed
+   finished change and (4) no task listed by a change that stays (no dangling task reference); (5) aborts only unready changes
+   past the abort period that are not pending; (6) keeps at most maxReadyChanges finished changes; (7) keeps exactly the
+   unexpired warnings and notices (kept iff last + expire >= now) *)
+Theorem C09_invariant : forall ops p,
+  let s := hrun ops in let order := sort_changes (ps_changes s) in let r := prune p s in
+  wf (result_state r) /\
+  (forall id, has_id (ps_changes s) id -> ~ has_id (r_changes r) id ->
+     exists c count, In c order /\ pc_id c = id /\
+       ((exists rd, pc_ready c = Some rd /\ (rd < prune_limit p \/ p_max_ready p < count)) \/
+        (pc_ready c = None /\ pc_tasks c = [] /\ clamped_spawn p c < prune_limit p))) /\
+  (forall c id, In c order -> pc_ready c <> None -> ~ has_id (r_changes r) (pc_id c) -> mem id (pc_tasks c) = true ->
+     ~ In id (map pt_id (r_tasks r))) /\
+  (forall c' id, In c' (r_changes r) -> In id (pc_tasks c') -> In id (map pt_id (r_tasks r))) /\
+  (forall id, In id (r_aborted r) ->
+     exists c, In c order /\ pc_id c = id /\ pc_ready c = None /\ clamped_spawn p c < abort_limit p /\ is_pending p c = false) /\
+  (0 <= p_max_ready p -> Z.of_nat (length (filter kept_ready (vs_of p order))) <= p_max_ready p) /\
+  (forall x, (In x (r_warnings r) <-> In x (ps_warnings s) /\ x_last x + x_expire x >= p_now p) /\
+             (In x (r_notices r) <-> In x (ps_notices s) /\ x_last x + x_expire x >= p_now p)).
+Proof. exact prune_invariant. Qed.
+Print Assumptions C09_invariant.
+
 (* non-vacuity: a state in which one old finished change goes, with its task; a young one stays; an old unready one is aborted *)
 Example C09_example :
   let s := mkPS [mkPC 1 (-1000) (Some (-900)) [1%N] []; mkPC 2 (-50) (Some (-40)) [2%N] []; mkPC 3 (-1000) None [3%N] []]
@@ -147,4 +183,13 @@ Example C09_count_example :
   let p := mkParams 0 0 None 100 200 1 [] in
   map pc_id (r_changes (prune p s)) = [3%N] /\ r_tasks (prune p s) = [] /\
   length (filter kept_ready (vs_of p (sort_changes (ps_changes s)))) = 1%nat.
+Proof. vm_compute. repeat split; reflexivity. Qed.
+
+(* non-vacuity of the histories: two changes with tasks, one finished long ago; a Prune in the middle removes it with its
+   task; the history goes on and a second Prune finds the invariant intact *)
+Example C09_history_example :
+  let ops := [HNewChange (-1000) []; HNewTask 1 (-1000) 4; HSetReady 1 (Some (-900)); HNewChange (-50) []; HNewTask 2 (-50) 2;
+              HPrune (mkParams 0 0 None 100 200 5 []); HNewTask 2 (-10) 2; HNewChange (-5) []; HPrune (mkParams 0 0 None 100 200 5 [])] in
+  map pc_id (ps_changes (hrun ops)) = [2; 3]%N /\ map pc_tasks (ps_changes (hrun ops)) = [[2; 3]; []]%N /\
+  map pt_id (ps_tasks (hrun ops)) = [2; 3]%N.
 Proof. vm_compute. repeat split; reflexivity. Qed.
